@@ -273,8 +273,14 @@ def make_cases(ck: Check, lab: Lab, n: int) -> list[dict]:
             cases.append({**base, "kind": "discriminator", "input_file_type": ift, "text": json.dumps(doc)})
         elif r == 10:  # >= 2 sub-directories, distinct basenames, class names colliding across files
             files = detgen.schema_tree(rng)
-            cases.append({**base, "kind": "tree", "input_file_type": "jsonschema", "path": lab.write_dir(cid, files), "modular": True,
-                          "same_basename": False, "files": sorted(files)})
+            ift, mixed = "jsonschema", False
+            if rng.chance(1, 3):   # input type inferred from the directory's content
+                ift = "auto"
+                if rng.chance(1, 2):   # … whose files are not all of one type
+                    files[f"{rng.choice(['api', 'a', 'zz'])}/service_api.json"] = json.dumps(detgen.discriminator_doc_openapi(rng))
+                    mixed = True
+            cases.append({**base, "kind": "tree", "input_file_type": ift, "path": lab.write_dir(cid, files), "modular": True,
+                          "same_basename": False, "files": sorted(files), "mixed_types": mixed})
         else:
             opts = {k: v for k, v in opts.items() if k in ("snake_case_field", "use_standard_collections", "use_union_operator", "use_schema_description", "use_field_description")}
             cases.append({**base, "opts": opts, "kind": "graphql", "input_file_type": "graphql", "text": docgen.graphql_sdl(rng)})
@@ -488,7 +494,8 @@ def campaign_differential(ck: Check, lab: Lab, n_cases: int, n_fresh: int, seeds
             continue
         ck.notes["diagnosed"] = n_diag + 1
         factor = diagnose(lab, c, cfgs)
-        cls = {"oracle": "differential", "entry": "generate", "factor": factor, "input": c["kind"], "same_basename": bool(c.get("same_basename"))}
+        cls = {"oracle": "differential", "entry": "generate", "factor": factor, "input": c["kind"], "same_basename": bool(c.get("same_basename")),
+               "input_file_type": c["input_file_type"], "mixed_types": bool(c.get("mixed_types"))}
         history = None
         if factor == "history":   # which earlier calls does it take? (kept in the replay file)
             def prefix(nm):
@@ -547,7 +554,7 @@ def campaign_main_history(ck: Check, lab: Lab) -> None:
 def search(ck: Check) -> None:
     """a table obligation broke: name the unjustified sites, then run a larger differential campaign"""
     try:
-        for what in ("sites", "cache", "state", "writes"):
+        for what in ("sites", "cache", "state", "writes", "returns", "listing"):
             rep = ck.driver.run([f"det.refute {what}"])[0]
             if rep.startswith("ok "):
                 groups = rep[3:].replace("(", "").split(")")
@@ -579,7 +586,8 @@ def rerun(ck: Check, inp: dict) -> None:
             keys = [outcome(r.get("results", {}).get(c["id"])) for r in res]
             camp.evaluations += len(keys)
             if len(set(keys)) > 1:
-                ck.fail({"oracle": "differential", "entry": "generate", "factor": diagnose(lab, c, {}), "input": c.get("kind"), "same_basename": bool(c.get("same_basename"))},
+                ck.fail({"oracle": "differential", "entry": "generate", "factor": diagnose(lab, c, {}), "input": c.get("kind"), "same_basename": bool(c.get("same_basename")),
+                         "input_file_type": c.get("input_file_type"), "mixed_types": bool(c.get("mixed_types"))},
                         inp, "outputs differ between processes: " + first_diff(res[0]["results"][c["id"]], next(r["results"][c["id"]] for r, kx in zip(res, keys) if kx != keys[0])))
     finally:
         lab.close()
